@@ -11,7 +11,8 @@ RULE = (
     "-2..2, the same around 2^29, and uniform) and lengths from {1, 2, small, bin size +-1, huge}; 12-20 queries each: "
     "region() in tuple / 'seqid:start-end' / Feature / keyword form, seqid omitted, one-sided, with strand, featuretype "
     "(str or list) and completely_within, and the same intervals as limit= of all_features, features_of_type, children "
-    "and parents. Non-trivial query = the answer is a non-empty proper subset, or a coordinate lies within 2 of a bin "
+    "and parents; half of the cases then add 1-3 features through update() on the same handle (parsed lines, or interfeatures of "
+    "two flanking Features; optionally one feature moved by an add_relation child_func) and repeat the queries. Non-trivial query = the answer is a non-empty proper subset, or a coordinate lies within 2 of a bin "
     "edge or at/after 2^29. Cases are databases; distinct non-trivial databases counted by hash (>= 1 non-trivial query)."
 )
 ASSUMPTIONS = [
